@@ -113,11 +113,20 @@ class _CircuitAttacher(object):
 def _get_circuit_attacher(reactor, state):
     if _get_circuit_attacher.attacher is None:
         _get_circuit_attacher.attacher = _CircuitAttacher()
-        yield state.set_attacher(_get_circuit_attacher.attacher, reactor)
+        # everyone who asks before Tor has acknowledged that it leaves
+        # streams unattached has to wait for that, not only the first
+        _get_circuit_attacher.installed = SingleObserver()
+        d = defer.maybeDeferred(
+            state.set_attacher, _get_circuit_attacher.attacher, reactor,
+        )
+        d.addBoth(_get_circuit_attacher.installed.fire)
+    if _get_circuit_attacher.installed is not None:
+        yield _get_circuit_attacher.installed.when_fired()
     return _get_circuit_attacher.attacher
 
 
 _get_circuit_attacher.attacher = None
+_get_circuit_attacher.installed = None
 
 
 @implementer(IStreamClientEndpoint)
